@@ -12,9 +12,15 @@ Obligation(r) ==
     \* a parser returns a value or throws the library's exception; nothing else
     [] r.e = "str" -> r.out \in {"ok", "GeographicErr"}
     \* a corrupted save is rejected with the library's exception or loads into a usable object
-    [] r.e = "nn" -> r.out \in {"ok", "GeographicErr"} /\ r.usable
+    [] r.e = "nn" -> r.out \in {"ok", "GeographicErr"} /\ r.usable /\ (r.fault = "none" => r.out = "ok")
+    \* a malformed model file is rejected with the library's exception (or an allocation failure); if it is accepted the
+    \* model must be usable (evaluation returns; non-finite values are possible when the file holds non-finite coefficients)
+    [] r.e = "mfile" -> r.out \in {"ok", "GeographicErr", "bad_alloc"} /\ (r.fault = "none" => r.out = "ok" /\ r.finite)
+    \* the allocator of the sanitizer build refused a huge request: counts as an allocation failure
+    [] r.e = "crash" /\ r.what = "alloc" -> TRUE
     \* the process died (signal, sanitizer report, time-out) while executing this vector
-    [] r.e = "crash" -> FALSE
+    [] r.e = "crash" /\ r.what # "alloc" -> FALSE
+    [] r.e = "skip" -> TRUE
     [] OTHER -> FALSE
 
 Law(r) == IF r.e = "call" THEN "contract-" \o r.n ELSE "contract-" \o r.e
